@@ -385,8 +385,11 @@ def run_check(modname: str, tier: str, seed: int, jobs: int | None = None) -> in
         "wall_s": round(wall, 2),
         "violations": len(new),
     }
-    os.makedirs(os.path.join(VERIF, "evidence"), exist_ok=True)
-    with open(os.path.join(VERIF, "evidence", f"{prop}.json"), "w") as f:
+    # VERIF_EVIDENCE_DIR: where runs against a deliberately altered tree (seeded changes, VERIF_REPO) put their evidence, so
+    # that evidence/ only ever holds runs against /repo itself
+    evdir = os.environ.get("VERIF_EVIDENCE_DIR") or os.path.join(VERIF, "evidence")
+    os.makedirs(evdir, exist_ok=True)
+    with open(os.path.join(evdir, f"{prop}.json"), "w") as f:
         json.dump(ev, f, indent=1, default=str)
 
     for ent, v, path in known_hits:
